@@ -104,6 +104,7 @@ var subcommands = map[string]func(common){
 	"tbl-assertion": func(c common) { table(c, tbldrv.AssertionCase) },
 	"tbl-reqobj": func(c common) { table(c, tbldrv.RequestObjectCase) },
 	"tbl-authresp": func(c common) { table(c, tbldrv.AuthResponseCase) },
+	"tbl-codec": func(c common) { table(c, tbldrv.CodecCase) },
 }
 
 func table(c common, f func(*tbldrv.Case) tbldrv.M) {
